@@ -73,6 +73,17 @@ Theorem C15_attribute_read_latin1_refuted :
 Proof. exact attr_read_witnesses. Qed.
 Print Assumptions C15_attribute_read_latin1_refuted.
 
+(* HTTPResponse.apply and cookies: a raised / returned HTTPResponse that carries
+   cookies replaces the jar of the application's response with its own (so for a
+   name set on both, the raised one is emitted); one without cookies leaves it. *)
+Theorem C15_apply_cookies_replace :
+  forall (val : Type) (mac : list N -> list N -> list N) (dumps : str -> @cval val -> list N)
+         (r : mjar) (c : option mjar) (cs : list (str * @cval val * option str)) (hj : mjar),
+    mjar_set_all val mac dumps [] cs = inl hj ->
+    fst (fst (rstep val mac dumps (r, c) (RApply cs))) = (match hj with [] => r | _ => hj end, c).
+Proof. intros val mac dumps r c cs hj H. simpl. rewrite H. destruct hj; reflexivity. Qed.
+Print Assumptions C15_apply_cookies_replace.
+
 (* BaseResponse.copy: afterwards set_cookie / delete_cookie on the copy leave the
    cookies of the original exactly as they were and vice versa, and at the moment of
    the copy the copy holds the same morsels (key, value, coded value, delete
@@ -85,6 +96,7 @@ Theorem C15_copy_independent :
     | RSet true _ _ _ | RDel true _ => fst st' = fst st
     | RSet false _ _ _ | RDel false _ => snd st' = snd st
     | RCopy => fst st' = fst st /\ exists c, snd st' = Some c /\ Permutation.Permutation c (fst st)
+    | RApply _ => snd st' = snd st
     end.
 Proof. exact copy_independent. Qed.
 Print Assumptions C15_copy_independent.
